@@ -803,6 +803,10 @@ fn tree_snapshot(me: i32) -> Vec<(i32, i32, char, u64)> {
                     if t == me {
                         continue;
                     }
+                    // the foreign-descriptor churner of C11 is busy by design and can wake nobody
+                    if fs::read_to_string(format!("/proc/{}/task/{}/comm", p, t)).map(|c| c.trim() == "pest").unwrap_or(false) {
+                        continue;
+                    }
                     if let Some(s) = task_snap(p, t) {
                         v.push((p, t, s.state, s.cpu));
                     }
